@@ -572,11 +572,21 @@ theorem postCommit_no_actions (fl : Flow) (ps : List (Nat × Reg)) :
       exact ih
     | constraint ty vs => simpa [postCommit, commitActionRuns, txCompleteRuns] using ih
 
-/-- **C08, commit actions and transaction-complete listeners run once per committed transaction**:
-    one goroutine runs the commit actions of the transaction's context (each as often as it is
-    registered on the context, in order); with Db.Update every tx-complete listener runs exactly once
-    (Db.Batch has none). -/
-theorem commit_actions_once (env : Env) (h : FromCode env) (db : Db) (prevCtx : Ctx) (tx : TxSpec)
+/-- **C08, commit actions and transaction-complete listeners run once per committed transaction** —
+    the full statement: one goroutine runs the commit actions of the transaction's context (each as
+    often as it is registered on the context, in order), and every tx-complete listener runs exactly
+    once, whether the transaction was run by Db.Update or by Db.Batch. -/
+def commit_actions_once_fullStatement : Prop :=
+  ∀ (env : Env), FromCode env → ∀ (db : Db) (prevCtx : Ctx) (tx : TxSpec), tx.wellBehaved →
+    (runTx env db prevCtx tx).res = .ok →
+    commitActionRuns (runTx env db prevCtx tx).fired = [(runTx env db prevCtx tx).ctx.commitActions] ∧
+    txCompleteRuns (runTx env db prevCtx tx).fired = List.range env.txListeners
+
+/-- What holds of the code: the commit-action half for Update and Batch; the tx-complete half for
+    Db.Update only.  **Db.Batch never runs the tx-complete listeners** (boltz/db.go: Batch does not
+    register them with tx.OnCommit) — missing for the full statement; see the counter-example below
+    and /verif/fixes/proposed/C08-batch-tx-complete.diff. -/
+theorem commit_actions_once_partial (env : Env) (h : FromCode env) (db : Db) (prevCtx : Ctx) (tx : TxSpec)
     (hw : tx.wellBehaved) (hok : (runTx env db prevCtx tx).res = .ok) :
     commitActionRuns (runTx env db prevCtx tx).fired = [(runTx env db prevCtx tx).ctx.commitActions] ∧
     txCompleteRuns (runTx env db prevCtx tx).fired =
@@ -604,6 +614,37 @@ theorem commit_actions_once (env : Env) (h : FromCode env) (db : Db) (prevCtx : 
   cases hm : tx.mode with
   | update => simp [commitActionRuns, txCompleteRuns, (htail _).1, (htail _).2]
   | batch => simp [commitActionRuns, txCompleteRuns]
+
+/-- for Db.Update the full statement holds -/
+theorem commit_actions_once_update (env : Env) (h : FromCode env) (db : Db) (prevCtx : Ctx) (tx : TxSpec)
+    (hw : tx.wellBehaved) (hm : tx.mode = .update) (hok : (runTx env db prevCtx tx).res = .ok) :
+    commitActionRuns (runTx env db prevCtx tx).fired = [(runTx env db prevCtx tx).ctx.commitActions] ∧
+    txCompleteRuns (runTx env db prevCtx tx).fired = List.range env.txListeners := by
+  have := commit_actions_once_partial env h db prevCtx tx hw hok
+  simpa [hm] using this
+
+/-- the witness: one tx-complete listener, a Batch transaction that registers a commit action and
+    deletes an entity — it commits, the commit action runs, the tx-complete listener does not -/
+def batchWitnessEnv : Env := { regsP := [], regsC := [], txListeners := 1, t := Generated.crudReturns }
+def batchWitnessDb : Db := [("p1", { f := ⟨"n1", [], none⟩, child := none })]
+def batchWitnessTx : TxSpec := { mode := .batch, reuseCtx := false, body := [.addCommit 1, .op (.delete .P "p1") .none false] }
+
+theorem batch_runs_no_tx_complete :
+    (runTx batchWitnessEnv batchWitnessDb Ctx.empty batchWitnessTx).res = .ok ∧
+    commitActionRuns (runTx batchWitnessEnv batchWitnessDb Ctx.empty batchWitnessTx).fired = [[1]] ∧
+    txCompleteRuns (runTx batchWitnessEnv batchWitnessDb Ctx.empty batchWitnessTx).fired = [] := by
+  decide
+
+/-- the full statement is false of the code as it is -/
+theorem commit_actions_once_fullStatement_fails : ¬ commit_actions_once_fullStatement := by
+  intro hfull
+  have hw : batchWitnessTx.wellBehaved := by
+    intro s hs
+    simp [batchWitnessTx] at hs
+    rcases hs with rfl | rfl <;> rfl
+  have := (hfull batchWitnessEnv rfl batchWitnessDb Ctx.empty batchWitnessTx hw batch_runs_no_tx_complete.1).2
+  rw [batch_runs_no_tx_complete.2.2] at this
+  exact absurd this (by decide)
 
 -- non-vacuity: a committed transaction deleting an entity with child data (a parent and a child flow),
 -- a listener registered for [deleted, deletedAsync] on the parent store
